@@ -13,7 +13,7 @@ import z3
 
 from . import smt
 from .smt import IS, VS, Val, I, B, ISq, VSq
-from .values import (V, VInt, VBool, VSeq, VNone, VTuple, VList, VRef, VAny, VConst, VRecord, Unsupported, fresh,
+from .values import (V, VInt, VBool, VSeq, VNone, VTuple, VList, VRef, VAny, VConst, VRecord, VOpt, Unsupported, fresh,
                      parse_type, box, unbox, wt, wt_seq, sym_value, is_bytes_fact, is_chars_fact, mk_vsq, ISEQ_KINDS)
 
 EXC_PARENTS = {
@@ -316,6 +316,8 @@ class Engine:
             return z3.BoolVal(True)
         if isinstance(v, (VConst, VRecord)):
             return z3.BoolVal(True)
+        if isinstance(v, VOpt):
+            return z3.And(z3.Not(v.isnone), self.truth(st, v.value))
         if isinstance(v, VAny):
             t = v.t
             return z3.And(z3.Not(Val.is_VN(t)),
@@ -357,7 +359,15 @@ class Engine:
             o = b if isinstance(a, VNone) else a
             if isinstance(o, VAny):
                 return Val.is_VN(o.t)
+            if isinstance(o, VOpt):
+                return o.isnone
             return z3.BoolVal(False)
+        if isinstance(a, VOpt) or isinstance(b, VOpt):
+            if isinstance(a, VOpt) and isinstance(b, VOpt):
+                return z3.Or(z3.And(a.isnone, b.isnone),
+                             z3.And(z3.Not(a.isnone), z3.Not(b.isnone), self.eq_vals(st, a.value, b.value)))
+            o, x = (a, b) if isinstance(a, VOpt) else (b, a)
+            return z3.And(z3.Not(o.isnone), self.eq_vals(st, o.value, x))
         if isinstance(a, VTuple) and isinstance(b, VTuple):
             if len(a.items) != len(b.items):
                 return z3.BoolVal(False)
@@ -725,7 +735,7 @@ class Engine:
             return Not_(self.eq_vals(st, a, b))
         if isinstance(op, (ast.Is, ast.IsNot)):
             a2, b2 = self.deref(st, a), self.deref(st, b)
-            if isinstance(b2, VNone) or isinstance(a2, VNone):
+            if isinstance(b2, VNone) or isinstance(a2, VNone) or isinstance(a2, VOpt) or isinstance(b2, VOpt):
                 r = self.eq_vals(st, a2, b2)
             elif isinstance(a2, VBool) or isinstance(b2, VBool):
                 if isinstance(a2, VAny) and isinstance(b2, VBool):
@@ -989,6 +999,10 @@ class Engine:
         return out
 
     def getattr_(self, st, v, attr, node):
+        if isinstance(v, VOpt):
+            if not self.spec_mode:
+                self.implicit_error(st, z3.Not(v.isnone), "AttributeError", node, "attribute-of-None")
+            return self.getattr_(st, v.value, attr, node)
         if isinstance(v, VRecord):
             if attr in v.fields:
                 return v.fields[attr]
@@ -1007,6 +1021,11 @@ class Engine:
                     r = self.resolve_global(attr, m)
                     if r is not None:
                         return r
+                if v.py == "string":
+                    import string as _string
+                    val = getattr(_string, attr, None)
+                    if isinstance(val, str):
+                        return lit_seq(val, "str")
                 if v.py == "io":
                     if attr in ("SEEK_SET", "SEEK_CUR", "SEEK_END"):
                         return VInt({"SEEK_SET": 0, "SEEK_CUR": 1, "SEEK_END": 2}[attr])
